@@ -319,4 +319,42 @@ theorem C17_raised_difference (s : St) (rounds : List TRound) (fl : List SelEv)
   · simp [transcript, localRun, mkRun, shutAfter, he, shutdown_threadless]
   · simp [transcript, threadedRun, localRun, mkRun, f2]
 
+/-- **C17 hand-off is atomic.**  `delegate_work_to_pool` sends the client address
+and the descriptor under one acquisition of the worker lock.  For every schedule
+of any number of delegate threads sharing one worker pipe — every interleaving,
+including steps of threads blocked on the lock — the pipe holds the intact
+`(address, descriptor)` pairs of the earlier acquisitions in acquisition order,
+followed by a prefix of the current holder's pair; whenever the lock is free the
+worker's receive loop (`recv()`, `recv_handle()`, repeat) reads exactly the pairs
+`(i, i)` in acquisition order and never an address where a descriptor is due. -/
+theorem C17_handoff_atomic (sched : List Nat) :
+    HInv (hrun lockedProg sched) ∧
+    ((hrun lockedProg sched).lock = none →
+      recvAll (hrun lockedProg sched).pipe = some ((hrun lockedProg sched).acq.map (fun j => (j, j)))) := by
+  have h := hrun_inv_from sched {} hinv_init
+  refine ⟨h, fun hl => ?_⟩
+  have h2 := h.2
+  unfold hrun at hl
+  rw [hl] at h2
+  simp only at h2
+  unfold hrun
+  rw [h2]
+  exact recvAll_pairs _
+
+/-- three hand-offs, interleaved as hard as the lock allows: three intact pairs -/
+example :
+    let s := hrun lockedProg [0, 1, 0, 2, 1, 0, 0, 2, 1, 2, 2, 2, 1, 1, 1, 1]
+    s.lock = none ∧ s.acq = [0, 2, 1] ∧ recvAll s.pipe = some [(0, 0), (2, 2), (1, 1)] := by
+  decide
+
+/-- **the lock must cover both sends.**  With the address sent before the lock is
+taken ("hold the lock only while the descriptor is in flight") two simultaneous
+hand-offs can put `addr 0, addr 1, fd 0, fd 1` on the pipe: the worker's
+`recv_handle()` finds pickled address bytes. -/
+theorem C17_handoff_needs_lock :
+    (hrun addrOutsideProg [0, 1, 0, 0, 0, 1, 1, 1]).pipe = [.addr 0, .addr 1, .fd 0, .fd 1] ∧
+    recvAll (hrun addrOutsideProg [0, 1, 0, 0, 0, 1, 1, 1]).pipe = none ∧
+    (hrun addrOutsideProg [0, 1, 0, 0, 0, 1, 1, 1]).lock = none := by
+  decide
+
 end Px.Modes
